@@ -105,7 +105,7 @@ func CanonKey(cmp comparer.Comparer, k []byte) []byte {
 }
 
 // ZeroPad is bytewise order on keys with their trailing 0x00 bytes stripped: "a", "a\x00" and "a\x00\x00"
-// are one user key. Helpers never shorten. Not part of Comparers: workers opt in (OptConstraints.NonInjective)
+// are one user key. Not part of Comparers: workers opt in (OptConstraints.NonInjective)
 // because a bloom filter over the raw key bytes is not usable with such a comparer.
 type ZeroPad struct{}
 
@@ -118,8 +118,22 @@ func (ZeroPad) Canon(k []byte) []byte {
 }
 func (z ZeroPad) Compare(a, b []byte) int           { return bytes.Compare(z.Canon(a), z.Canon(b)) }
 func (ZeroPad) Name() string                      { return "verif.ZeroPad" }
-func (ZeroPad) Separator(dst, a, b []byte) []byte { return nil }
-func (ZeroPad) Successor(dst, b []byte) []byte    { return nil }
+
+// Separator and Successor return the stripped form of their first argument when that is shorter. Both are
+// legal (the result compares equal to the argument: a <= sep < b and succ >= b hold), and both are results
+// that the internal-key comparer must refuse to shorten to.
+func (z ZeroPad) Separator(dst, a, b []byte) []byte {
+	if t := z.Canon(a); len(t) < len(a) {
+		return append(dst, t...)
+	}
+	return nil
+}
+func (z ZeroPad) Successor(dst, b []byte) []byte {
+	if t := z.Canon(b); len(t) < len(b) {
+		return append(dst, t...)
+	}
+	return nil
+}
 
 var Comparers = []comparer.Comparer{
 	comparer.DefaultComparer, Reverse{}, Shortlex{}, Lazy{}, Unshortened{}, ReverseShortening{},
